@@ -310,7 +310,7 @@ def run_case(binary, fl, case, scn_lines):
         if case["buffer"] is not None:
             env["YGM_COMM_BUFFER_SIZE_KB"] = case["buffer"]
         return C.run_sim(binary, [fl.what, fl.kinds, p], nodes=case["nodes"], ppn=case["ppn"], env=env,
-                         sim_seed=case["sim_seed"], policy=case["policy"], want_log=False, timeout=120)
+                         sim_seed=case["sim_seed"], policy=case["policy"], want_log=False, timeout=case.get("timeout", 40))
     finally:
         shutil.rmtree(d, ignore_errors=True)
 
@@ -346,7 +346,7 @@ def parse_rank(lines):
 def comm_layer_abort(sr):
     """messaging-layer failures that are the subject of C03 (not of the container semantics)"""
     e = sr.stderr or ""
-    return ("comm.ipp" in e and "ASSERT" in e.upper()) or sr.verdict.startswith("deadlock") or sr.verdict in ("livelock", "step-budget")
+    return ("comm.ipp" in e and "ASSERT" in e.upper()) or sr.verdict.startswith("deadlock")
 
 
 # ---------------------------------------------------------------------------------------- analysis
@@ -445,25 +445,34 @@ def analyse(fl, scn, sr, case, res, model_ok):
             Q = {c: cont[c], 1 - c: F[1 - c]}
         elif mut:
             Q, post_expect = fl.undo_mut(A, mut, bi, cont, F, ev, owners, R)
+        # ---- 1 rank: the execution order is the order in which operations were packed into the send buffer (`P`)
+        pack_order = []
+        if onerank:
+            line_op = {li: (cc, o) for (li, r, cc, o) in blk["ops"]}
+            pend_main, pend_em, consuming = None, None, False
+            for e in ev[0]:
+                if e[0] == "I":
+                    pend_main = line_op.get(e[1])
+                elif e[0] == "cb":
+                    consuming = fl.is_consume_cb(e[2])
+                elif e[0] == "em":
+                    pend_em = (e[1], e[2], consuming)
+                elif e[0] == "P":
+                    if pend_em is not None:
+                        if not pend_em[2]:
+                            pack_order.append((pend_em[0], pend_em[1]))
+                        pend_em = None
+                    elif pend_main is not None:
+                        pack_order.append(pend_main)
+                        pend_main = None
         # ---- operations of the block, per container: main + handler-issued
         for c in (0, 1):
             main = [(li, r, o) for (li, r, cc, o) in blk["ops"] if cc == c]
             cbs_by_key, em_by_parent, em_all, cbseq, emseq, order = {}, {}, [], [], [], []
             for r in range(R):
                 lastcb, in_consume = None, False
-                pend_main, pend_em = None, None       # 1 rank: `P` = the pending operation was packed into the send buffer
                 for e in ev[r]:
-                    if e[0] == "I":
-                        m = [o for (li, rr, o) in main if li == e[1]]
-                        pend_main = m[0] if m else None
-                    elif e[0] == "P":
-                        if pend_em is not None:
-                            order.append(pend_em)
-                            pend_em = None
-                        elif pend_main is not None:
-                            order.append(pend_main)
-                            pend_main = None
-                    elif e[0] == "cb" and e[1] == c:
+                    if e[0] == "cb" and e[1] == c:
                         in_consume = fl.is_consume_cb(e[2])
                         if in_consume:
                             continue
@@ -479,7 +488,7 @@ def analyse(fl, scn, sr, case, res, model_ok):
                         em_by_parent.setdefault(lastcb, []).append(e[2])
                         em_all.append(e[2])
                         emseq.append(e[2])
-                        pend_em = e[2]
+            order = [o for (cc, o) in pack_order if cc == c]
             allops = [o for (_, _, o) in main] + em_all
             if onerank:
                 # ------------------------------------------------ (a) exact sequence semantics
@@ -663,7 +672,7 @@ MapFlavour.is_consume_cb = lambda self, cb: False
 def make_cases(flavours, tier, seed):
     rnd = random.Random(seed * 7919 + 11)
     cases = []
-    n1 = 1 if tier == "quick" else 4
+    n1 = 2 if tier == "quick" else 6
     # (a) one rank: every flavour x buffer
     for fl in flavours:
         for buf in BUFFERS:
@@ -671,7 +680,7 @@ def make_cases(flavours, tier, seed):
                 cases.append({"fl": fl, "nodes": 1, "ppn": 1, "routing": rnd.choice(ROUTINGS), "buffer": buf, "policy": rnd.choice(POLICIES),
                               "sim_seed": rnd.randrange(1, 1 << 30), "gen_seed": rnd.randrange(1 << 30), "blocks": 5 if tier == "quick" else 8})
     # (b) distributed: rotate through layouts x routings x buffers x policies
-    nd = (7 if tier == "quick" else 40) * len(flavours)
+    nd = (14 if tier == "quick" else 80) * len(flavours)
     off = rnd.randrange(1000)
     for i in range(nd):
         fl = flavours[i % len(flavours)]
@@ -755,7 +764,7 @@ def run_flavours(flavours, tier, seed, model_ok, rule, assumptions):
 FLAVOURS = [MapFlavour(w, k) for w in ("map", "multimap") for k in ("ss", "is", "si")]
 ASSUME = ["every operation is executed exactly once, atomically, on owner(key) before the barrier returns (C01/C02/C08; Dist.Complete)",
           "std::multimap keeps equal keys in insertion order; std::hash is a parameter (owners are read from the real run)",
-          "runs aborted by the messaging layer (comm.ipp assertion, deadlock, livelock) are C03's subject and are skipped here, counted in the distribution"]
+          "runs aborted by the messaging layer (comm.ipp assertion, deadlock) are C03's subject and are skipped here, counted in the distribution"]
 
 
 def run(tier, seed, model_ok=True):
